@@ -6,6 +6,10 @@
      check_value_sound    : decl_ty t -> vnodup v -> check_value t v = true -> vtyped v t
      check_value_complete : decl_ty t -> WT t -> vtyped v t -> check_value t v = true
      check_entity_sound, check_entities_sound, check_request_sound, checks_env_ok
+     action_closure_exact : In x (action_closure sch u) <-> aclosure sch u x   (soundness for any fuel + completeness: the fuel
+       S (S (length ts_agraph)) always suffices; agraph_wf / NoDup of the keys are NOT needed, see action_closure_exact0)
+     check_action_entity_exact : check_action_entity accepts exactly the declared actions without attributes and tags whose parents
+       are the transitive closure of their declared groups
      validated_and_conforming_never_type_errors (and the wf_value variant validated_and_conforming_never_type_errors_wf)
 
    HYPOTHESES ADDED to the statements of the task (with the counterexamples that make them necessary, end of Part 1):
@@ -330,6 +334,121 @@ Section Entities.
     unfold akeys, aparents. induction (ts_agraph sch) as [|[a ps] r IH]; intros Hin; [destruct Hin|].
     cbn [map fst] in Hin. destruct (uid_eqb a u) eqn:E; [discriminate|].
     destruct Hin as [<-|Hin]; [rewrite uid_eqb_refl in E; discriminate | apply IH, Hin].
+  Qed.
+
+  (* ---- completeness of the closure walk: the fuel action_closure gives always suffices ----
+     Measure: the number of graph keys outside the accumulator (TypeSoundLemmas.aunv).  A node that is not a key has no parents and
+     needs one unit of fuel only; expanding a key puts it into the accumulator first, so the measure drops before the recursive calls.
+     Neither agraph_wf nor NoDup of the keys is needed (aunv counts list positions; a repeated key only makes the bound looser). *)
+  (* what a walk adds is fully expanded: every parent of an added node is in the result *)
+  Definition cexplored (V V' : list uid) : Prop :=
+    incl V V' /\ forall x, In x V' -> ~ In x V -> forall p, aedge sch x p -> In p V'.
+
+  Lemma cexplored_refl V : cexplored V V.
+  Proof. split; [apply incl_refl|]. intros x H1 H2. contradiction. Qed.
+
+  Lemma cexplored_trans A B C : cexplored A B -> cexplored B C -> cexplored A C.
+  Proof.
+    intros [I1 E1] [I2 E2]. split; [eapply incl_tran; eauto|].
+    intros x HxC HxA p Hp.
+    destruct (in_dec uid_dec x B) as [HB|HB].
+    - apply I2. apply (E1 x HB HxA p Hp).
+    - apply (E2 x HxC HB p Hp).
+  Qed.
+
+  Lemma cwalk_fold_explored f
+    (IHf : forall u V, (aunv sch V + 1 <= f)%nat -> cexplored V (cwalk sch f u V) /\ In u (cwalk sch f u V)) :
+    forall qs v, (aunv sch v + 1 <= f)%nat ->
+      cexplored v (fold_left (fun acc p => cwalk sch f p acc) qs v) /\
+      forall p, In p qs -> In p (fold_left (fun acc p => cwalk sch f p acc) qs v).
+  Proof.
+    induction qs as [|q r IHr]; intros v Hv; cbn [fold_left].
+    - split; [apply cexplored_refl | intros p []].
+    - destruct (IHf q v Hv) as [Ex1 Hq].
+      destruct (IHr (cwalk sch f q v)) as [Ex2 Hr]; [pose proof (aunv_mono sch _ _ (proj1 Ex1)); lia|].
+      split; [eapply cexplored_trans; eauto|].
+      intros p [<-|Hp]; [apply (proj1 Ex2), Hq | apply Hr, Hp].
+  Qed.
+
+  Lemma cwalk_explored : forall fuel u V, (aunv sch V + 1 <= fuel)%nat ->
+    cexplored V (cwalk sch fuel u V) /\ In u (cwalk sch fuel u V).
+  Proof.
+    induction fuel as [|f IH]; intros u V Hf; [lia|].
+    cbn [cwalk]. destruct (umem u V) eqn:Em.
+    - split; [apply cexplored_refl | apply umem_In, Em].
+    - destruct (aparents sch u) as [ps|] eqn:Ep.
+      + assert (Hkey : In u (akeys sch)) by (apply aparents_In in Ep; unfold akeys; apply in_map_iff; exists (u, ps); auto).
+        assert (Hlt : (aunv sch (u :: V) < aunv sch V)%nat).
+        { apply (SRP.filter_length_strict _ _ _ u); auto.
+          - intros x _ Hx. destruct (umem x V) eqn:E; [|reflexivity].
+            apply umem_In in E. assert (E' : umem x (u :: V) = true) by (apply umem_In; right; exact E).
+            rewrite E' in Hx. discriminate.
+          - rewrite Em. reflexivity.
+          - assert (E' : umem u (u :: V) = true) by (apply umem_In; left; reflexivity). rewrite E'. reflexivity. }
+        destruct (cwalk_fold_explored f IH ps (u :: V) ltac:(lia)) as [[I1 E1] Hps].
+        set (V' := fold_left (fun acc p => cwalk sch f p acc) ps (u :: V)) in *.
+        assert (Hc : In u V') by (apply I1; left; reflexivity).
+        split; [|exact Hc]. split.
+        * intros x Hx. apply I1. right; exact Hx.
+        * intros x HxV' HxV p (qs & Hq & Hp).
+          destruct (uid_dec x u) as [->|Hne].
+          -- rewrite Ep in Hq. inversion Hq; subst qs. apply Hps, Hp.
+          -- apply (E1 x HxV'); [|exists qs; auto]. intros [X|X]; [congruence | contradiction].
+      + cbn [fold_left]. split; [|left; reflexivity]. split; [intros x Hx; right; exact Hx|].
+        intros x [<-|Hx] Hn p (qs & Hq & _); [congruence | contradiction].
+  Qed.
+
+  (* the closure is closed under parents and contains the parents of u *)
+  Lemma action_closure_closed u :
+    (forall p, aedge sch u p -> In p (action_closure sch u)) /\
+    (forall x, In x (action_closure sch u) -> forall p, aedge sch x p -> In p (action_closure sch u)).
+  Proof.
+    unfold action_closure.
+    assert (Hfuel : (aunv sch [] + 1 <= S (S (List.length (ts_agraph sch))))%nat) by (pose proof (aunv_le sch []); lia).
+    destruct (cwalk_fold_explored _ (cwalk_explored _) (match aparents sch u with Some ps => ps | None => [] end) [] Hfuel) as [[_ E] Hps].
+    split.
+    - intros p (qs & Hq & Hp). apply Hps. rewrite Hq. exact Hp.
+    - intros x Hx p Hp. apply (E x Hx (fun X : In x [] => X) p Hp).
+  Qed.
+
+  (* COMPLETENESS: every action reachable from u through the declared groups is in the closure; no hypothesis on the schema *)
+  Theorem action_closure_complete0 : forall u x, aclosure sch u x -> In x (action_closure sch u).
+  Proof.
+    intros u x Hx. destruct (action_closure_closed u) as [Hu Hc].
+    assert (G : forall a b, clos_trans uid (aedge sch) a b ->
+                  (forall p, aedge sch a p -> In p (action_closure sch u)) -> In b (action_closure sch u)).
+    { intros a b X. induction X as [a b X | a y b _ IH1 _ IH2]; intros Ha.
+      - apply Ha, X.
+      - apply IH2. apply Hc. apply IH1, Ha. }
+    apply (G _ _ Hx Hu).
+  Qed.
+
+  Theorem action_closure_exact0 : forall u x, In x (action_closure sch u) <-> aclosure sch u x.
+  Proof. intros u x. split; [apply action_closure_sound | apply action_closure_complete0]. Qed.
+
+  (* the statements as asked for; agraph_wf is not used *)
+  Theorem action_closure_complete : agraph_wf sch -> forall u x, aclosure sch u x -> In x (action_closure sch u).
+  Proof. intros _. exact action_closure_complete0. Qed.
+
+  Theorem action_closure_exact : agraph_wf sch -> forall u x, In x (action_closure sch u) <-> aclosure sch u x.
+  Proof. intros _. exact action_closure_exact0. Qed.
+
+  (* what validateActionEntity accepts, exactly: a declared action without attributes and tags whose parents are the transitive
+     closure of its declared groups (agraph_wf is not used) *)
+  Theorem check_action_entity_exact : agraph_wf sch -> forall u e, check_action_entity sch (u, e) = true <->
+    (umem u (ts_actions sch) = true /\ e_attrs e = [] /\ e_tags e = [] /\ (forall p, In p (e_parents e) <-> aclosure sch u p)).
+  Proof.
+    intros _ u e. unfold check_action_entity. cbn [fst snd].
+    rewrite !andb_true_iff, !forallb_forall. split.
+    - intros [[[Hd Ha] Ht] [H1 H2]].
+      split; [exact Hd|]. split; [destruct (e_attrs e); [reflexivity | discriminate]|].
+      split; [destruct (e_tags e); [reflexivity | discriminate]|].
+      intros p. split.
+      + intros Hp. apply action_closure_exact0, umem_In, H1, Hp.
+      + intros Hp. apply umem_In, H2, action_closure_exact0, Hp.
+    - intros (Hd & Ha & Ht & Hp). rewrite Ha, Ht. split; [split; [split|]; auto|]. split.
+      + intros p Hin. apply umem_In, action_closure_exact0, Hp, Hin.
+      + intros p Hin. apply umem_In, Hp, action_closure_exact0, Hin.
   Qed.
 
   Hypothesis Hdecl : schema_decl sch.
@@ -713,6 +832,9 @@ Print Assumptions check_value_sound.
 Print Assumptions check_value_complete.
 Print Assumptions check_value_sound_needs_nodup.
 Print Assumptions check_value_complete_needs_WT.
+Print Assumptions action_closure_complete.
+Print Assumptions action_closure_exact.
+Print Assumptions check_action_entity_exact.
 Print Assumptions check_entity_sound.
 Print Assumptions check_entities_sound.
 Print Assumptions check_request_sound.
